@@ -208,7 +208,15 @@ def make_invalid(rng, entry, kind, call, objs):
         call[side + '_out_attrs'] = cur
     elif kind in ('numeric_l_attr', 'numeric_r_attr'):
         spec = call[tname]
-        nums = [c for c in spec['cols'] if str(spec['dtypes'].get(c)).startswith(('int', 'float'))]
+        nums = [c for c in spec['cols'] if str(spec['dtypes'].get(c)).startswith(('int', 'float'))
+                and c != side + 'id']
+        if not nums:        # the table has no numeric column beyond its key: give it one
+            spec = dict(spec, cols=list(spec['cols']) + [side + 'x_num'],
+                        data=dict(spec['data']), dtypes=dict(spec['dtypes']))
+            spec['data'][side + 'x_num'] = [float(i) for i in range(T.spec_len(call[tname]))]
+            spec['dtypes'][side + 'x_num'] = 'float64'
+            call[tname] = spec
+            nums = [side + 'x_num']
         call[side + '_attr'] = rng.choice(nums)
     elif kind in ('l_key_dup', 'r_key_dup'):
         spec = dict(call[tname])
@@ -413,9 +421,9 @@ def accept_case(case, rec, ssj):
         call['allow_missing'] = am
         call['out_sim_score'] = rng.random() < 0.8
         if entry == 'overlap_join':
-            call['threshold'] = 1
+            call['threshold'] = rng.choice([1, 1, 1.0, 1.5])
         elif ed:
-            call['threshold'] = rng.choice([0, 0, 1, 2])
+            call['threshold'] = rng.choice([0, 0, 1, 2, 1.0, 1.5, 0.0])
         else:
             call['threshold'] = rng.choice([1.0, 1.0, 0.5, 1e-9, 1e-160, 1e-300, 5e-324])
     elif entry.startswith('ft:') or entry == 'filter_candset':
@@ -425,11 +433,11 @@ def accept_case(case, rec, ssj):
             call['out_sim_score'] = rng.random() < 0.5
         else:
             m = rng.choice(['JACCARD', 'COSINE', 'DICE', 'OVERLAP'])
-            call['filter'] = {'kind': kind, 'measure': m, 'threshold': 1 if m == 'OVERLAP' else rng.choice([1.0, 0.5, 0.5, 1e-160, 1e-300, 5e-324]),
+            call['filter'] = {'kind': kind, 'measure': m, 'threshold': rng.choice([1, 1, 1.0, 1.5, 2.0]) if m == 'OVERLAP' else rng.choice([1.0, 0.5, 0.5, 1e-160, 1e-300, 5e-324]),
                               'allow_missing': am, 'measure_spelling': gen.spell(rng, m)}
             if rng.random() < 0.15 and T.spec_len(L) and T.spec_len(R):
                 # edit distance needs a q-gram tokenizer (bag mode)
-                call['filter'].update(measure='EDIT_DISTANCE', threshold=rng.choice([0, 1, 2]),
+                call['filter'].update(measure='EDIT_DISTANCE', threshold=rng.choice([0, 1, 2, 1.0, 1.5, 0.5, 0.0]),
                                       measure_spelling=gen.spell(rng, 'EDIT_DISTANCE'))
                 call['tok'] = {'kind': 'qgram', 'q': 2, 'padding': True, 'return_set': False}
         call['api'] = 'filter_tables' if entry.startswith('ft:') else 'filter_candset'
@@ -455,6 +463,22 @@ def accept_case(case, rec, ssj):
             call['profile_attrs'] = None
         elif r < 0.6:
             call['profile_attrs'] = rng.choice([[side + 'attr'], [side + 'id', side + 'x']])
+    # numbers handed over as numpy scalars (values exactly representable in the narrow types)
+    if rng.random() < 0.25:
+        th = call.get('threshold', call.get('filter', {}).get('threshold', call.get('filter', {}).get('overlap_size')))
+        if th is not None and not isinstance(th, bool):
+            if isinstance(th, int):
+                how = rng.choice(['int64', 'int32', 'int16', 'uint8', 'float64', 'float32'])
+            elif th in (1.0, 0.5, 0.25, 0.75):
+                how = rng.choice(['float64', 'float32', 'float16'])
+            else:
+                how = 'float64'
+            if 'filter' in call:
+                call['filter'] = dict(call['filter'], threshold_np=how)
+            if 'threshold' in call:
+                call['threshold_np'] = how
+            rec.count('acceptance_numpy_thresholds')
+            rec.add('numpy_threshold_types', how)
     rec.count('acceptance_cases')
     tag = '%s left=%s right=%s dtype=%s allow_missing=%r n_jobs=%r%s: ' % (
         entry, ls, rs, dtype, am, case['n_jobs'], ' key==join attribute' if case.get('keyjoin') else '')
